@@ -13,7 +13,8 @@ import (
 )
 
 // Command lattice: equal, parent, child, sibling, textual-prefix-only, top.
-var c02Lattice = []string{"/", "/a", "/a/b", "/a/b/c", "/a/c", "/ab", "/ab/c", "/b"}
+// /σ and /ς are distinct valid commands whose only letters are case-fold partners of each other.
+var c02Lattice = []string{"/", "/a", "/a/b", "/a/b/c", "/a/c", "/ab", "/ab/c", "/b", "/σ", "/ς"}
 
 // sliceLoader resolves proof CIDs positionally by linear search.
 type sliceLoader struct {
@@ -47,7 +48,7 @@ func c02Sub(name, dir string, qn, tn int) *engine.Sub {
 	return &engine.Sub{
 		Name:   name,
 		Repeat: true,
-		Rule:   "every assignment of lattice commands {/, /a, /a/b, /a/b/c, /a/c, /ab, /ab/c, /b} to the invocation and to each link of a principal-aligned chain; non-trivial = at most one link fails the reference cover relation",
+		Rule:   "every assignment of lattice commands {/, /a, /a/b, /a/b/c, /a/c, /ab, /ab/c, /b, /σ, /ς (two distinct lower-case commands that only differ by case-fold partners)} to the invocation and to each link of a principal-aligned chain; non-trivial = at most one link fails the reference cover relation",
 		Bound: func(t string) string {
 			return fmt.Sprintf("chains of 1..%d links, 8 commands per position", tierN(t, qn, tn))
 		},
@@ -130,6 +131,105 @@ func c02Sub(name, dir string, qn, tn int) *engine.Sub {
 	}
 }
 
+// ---- sequences of invocations against the SAME delegation objects ----
+
+type c02SeqCase struct {
+	Chain []int `json:"chain"` // commands of the links, leaf first
+	Seq   []int `json:"seq"`   // invoked commands, one fresh invocation each
+}
+
+func (c *c02SeqCase) Weight() int { return len(c.Seq) }
+
+func c02SeqSub(dir string) *engine.Sub {
+	name := "shared-delegations-sequences"
+	if dir == "complete" {
+		name += "-completeness"
+	}
+	return &engine.Sub{
+		Name:  name,
+		Rule:  "one chain of 1..2 delegation OBJECTS (every assignment of lattice commands) serves a sequence of three invocations (every triple of lattice commands, each a fresh invocation token, checked with both APIs): every verdict must be the reference's for that invocation, whatever was asked of the same delegations before (an allowed check, a refused one, the same refused one again); non-trivial = sequences with differing verdicts",
+		Bound: func(string) string { return "10 + 100 chains x 1000 command triples" },
+		Setup: func(string) error { chainInit(); return nil },
+		Gen: func(tier string, emit func(any) bool) {
+			L := len(c02Lattice)
+			var chains [][]int
+			for a := 0; a < L; a++ {
+				chains = append(chains, []int{a})
+			}
+			for a := 0; a < L; a++ {
+				for b := 0; b < L; b++ {
+					chains = append(chains, []int{a, b})
+				}
+			}
+			for _, ch := range chains {
+				for x := 0; x < L; x++ {
+					if !emit(&c02SeqCase{Chain: ch, Seq: []int{x, -1, -1}}) {
+						return
+					}
+				}
+			}
+		},
+		NewCase: func() any { return &c02SeqCase{} },
+		Run: func(ctx *engine.Ctx, c any) {
+			cs := c.(*c02SeqCase)
+			n := len(cs.Chain)
+			L := len(c02Lattice)
+			var seqs [][]int
+			if cs.Seq[1] >= 0 {
+				seqs = [][]int{cs.Seq}
+			} else {
+				for y := 0; y < L; y++ {
+					for z := 0; z < L; z++ {
+						seqs = append(seqs, []int{cs.Seq[0], y, z})
+					}
+				}
+			}
+			chainOK := true
+			for i := 0; i+1 < n; i++ {
+				if !refmodel.CmdCovers(c02Lattice[cs.Chain[i+1]], c02Lattice[cs.Chain[i]]) {
+					chainOK = false
+				}
+			}
+			for _, seq := range seqs {
+				// fresh delegation objects per sequence, shared by its three invocations
+				ld := &sliceLoader{}
+				prf := make([]cid.Cid, n)
+				for i := 0; i < n; i++ {
+					ld.cids = append(ld.cids, cidPool[i])
+					ld.toks = append(ld.toks, mustDlg(alignedHolder(n, i+1), alignedHolder(n, i), 0, c02Lattice[cs.Chain[i]], nil))
+					prf[i] = cidPool[i]
+				}
+				ctx.States(1)
+				verdicts := map[bool]bool{}
+				for k, x := range seq {
+					inv, err := invocation.New(prin(alignedHolder(n, 0)), prin(0), commandOf(c02Lattice[x]), prf, invocation.WithNonce(fixedNonce), invocation.WithoutInvokedAt())
+					if err != nil {
+						panic(err)
+					}
+					want := chainOK && refmodel.CmdCovers(c02Lattice[cs.Chain[0]], c02Lattice[x])
+					verdicts[want] = true
+					e1, e2 := bothVerdicts(inv, ld)
+					ctx.Eval(2)
+					ctx.Trans(1)
+					ctx.Outcome(errLabel(e1))
+					rc := &c02SeqCase{Chain: cs.Chain, Seq: seq}
+					for _, e := range []error{e1, e2} {
+						if dir == "sound" && e == nil && !want {
+							ctx.Failf(rc, "command-widened/after-earlier-checks-on-the-same-delegations", "invocation #%d (%s) of the sequence %v against chain %v is allowed although the chain does not cover it", k, c02Lattice[x], seq, cs.Chain)
+						}
+						if dir == "complete" && e != nil && want {
+							ctx.Failf(rc, "denied-attenuating/after-earlier-checks-on-the-same-delegations", "invocation #%d (%s) of the sequence %v against chain %v is denied although the chain covers it: %v", k, c02Lattice[x], seq, cs.Chain, e)
+						}
+					}
+				}
+				if len(verdicts) > 1 {
+					ctx.Nontrivial(1)
+				}
+			}
+		},
+	}
+}
+
 func c02Describe(cs *c02Case) string {
 	s := "inv " + c02Lattice[cs.Cmds[0]]
 	for i := 1; i < len(cs.Cmds); i++ {
@@ -142,7 +242,7 @@ func C02() *engine.Check {
 	return &engine.Check{
 		Property: "C02",
 		Level:    "model_checking",
-		Subs:     []*engine.Sub{c02Sub("command-attenuation", "sound", 4, 6), longChainSub("C02")},
+		Subs:     []*engine.Sub{c02Sub("command-attenuation", "sound", 4, 6), c02SeqSub("sound"), longChainSub("C02")},
 		Assumptions: []string{
 			"principals are aligned correctly, policies empty, no time bounds: only the command rule can fire",
 			"reference cover relation = segment-prefix order (refmodel.CmdCovers), independent of Command.Covers",
